@@ -89,6 +89,17 @@ static struct stim ST[MAXSTIM];
 static int nst;
 
 /* failures */
+/* the library's malloc() calls: the block comes back filled with the scenario's byte pattern (cfg fill=N), so that a field the library
+ * forgets to initialise reads as all-ones / 1 / ... instead of whatever the allocator left there */
+static int cfg_fill = -1;
+void *__wrap_malloc(size_t n)
+{
+	void *p = malloc(n);	/* only the library's references are redirected here */
+	if (p != NULL && cfg_fill >= 0)
+		memset(p, cfg_fill, n);
+	return p;
+}
+
 static int cfg_nopwait2, cfg_notimerfd, cfg_noppoll, cfg_noeventfd2, cfg_noeventfd, cfg_noepollcreate1;
 static int eintr_at[64], neintr;	/* wait-call indices (1-based, counting every call) that return EINTR */
 static int fail_eventfd_errno;		/* eventfd syscalls fail with this errno (e.g. EMFILE) */
@@ -981,6 +992,7 @@ int main(int argc, char **argv)
 				else if (!strcmp(c, "eventfd-emfile")) fail_eventfd_errno = EMFILE;
 				else if (!strcmp(c, "pipe-emfile")) fail_pipe = 1;
 				else if (!strncmp(c, "eintr=", 6)) { if (neintr < 64) eintr_at[neintr++] = atoi(c + 6); }
+				else if (!strncmp(c, "fill=", 5)) cfg_fill = atoi(c + 5) & 0xff;
 				else if (!strncmp(c, "waitlimit=", 10)) wait_limit = atoi(c + 10);
 				else if (!strncmp(c, "cblimit=", 8)) cb_limit = atoi(c + 8);
 				else { logf_("HARNESS-ERROR cfg %s\n", c); finish(NULL); }
